@@ -114,6 +114,13 @@ def collect(pid, tier, seed, v):
         for i, k in enumerate(keys):
             cases.append({"id": i + 1, "script": json.loads(k), "finals": design[k]})
             index[json.dumps(json.loads(k), sort_keys=True)] = i
+        # a send failure after which the sender cannot be opened again either is the same event for the model (the message failed):
+        # every second script with a send failure is also run that way
+        extra = []
+        for c in cases:
+            if any(e["ev"] == "sendfail" for e in c["script"]) and not any(is_q(e) for e in c["script"]) and c["id"] % 2 == 0:
+                extra.append({"id": len(cases) + len(extra) + 1, "script": c["script"], "finals": c["finals"], "noReopen": True})
+        cases += extra
         def judge(cs, tag):
             """replay the scripts cs (renumbered 1..n) on the real responder and let the oracle judge them"""
             cs = [dict(c, id=i + 1) for i, c in enumerate(cs)]
